@@ -228,7 +228,7 @@ package scanner
 // After '#' (and after '##') every byte other than '#' is handled exactly as stateSingleComment would handle it: the two
 // states are stateSingleComment entered through another door (this includes the line end, which must be handed on to the
 // state saved by startComment).
-//@ equiv stepFunc(s, c) [C05] : pairs 10/13, 32/9 : byteat data,file.content curIndex : s.step, s.stepStack, s.finds, s.stack, s.curIndex, s.open, s.openBegin, s.lastEnd, s.dataSize, s.lastDirectiveParameters
+//@ equiv stepFunc(s, c) [C05,C14] : pairs 10/13, 32/9 : byteat data,file.content curIndex : s.step, s.stepStack, s.finds, s.stack, s.curIndex, s.open, s.openBegin, s.lastEnd, s.dataSize, s.lastDirectiveParameters
 //@ equiv like stepFunc stateCommentStarted stateSingleComment [C05,C14] : c != 35
 //@ equiv like stepFunc stateCommentDouble stateSingleComment [C05,C14] : c != 35
 
